@@ -309,6 +309,23 @@ pub fn datetime(rng: &mut Rng, cfg: &Cfg) -> DateTime {
     DateTime::from(dt)
 }
 
+/// timestamps IN a leap second (`23:59:60` UTC and the same instant on other wall clocks, with and without a
+/// fraction): chrono keeps them as second 59 with 10^9 or more nanoseconds; the RFC 3339 readers accept `:60`
+pub fn leap_datetimes() -> Vec<DateTime> {
+    let mut v = Vec::new();
+    // 2016-12-31T23:59:59Z and 2015-06-30T23:59:59Z
+    for secs in [1_483_228_799i64, 1_435_708_799] {
+        for ns in [1_000_000_000u32, 1_500_000_000, 1_000_000_001, 1_999_999_999] {
+            for tz in [chrono_tz::UTC, chrono_tz::America::New_York, chrono_tz::Asia::Kolkata, chrono_tz::Australia::Sydney] {
+                if let Some(d) = tz.timestamp_opt(secs, ns).single() {
+                    v.push(DateTime::from(d));
+                }
+            }
+        }
+    }
+    v
+}
+
 /// timestamps in periods in which the zone's own offset is not a whole number of minutes (local mean time
 /// before standard time; Amsterdam until 1937, Monrovia until 1972): the offset written in text has minute
 /// precision, the wall clock time is exact
